@@ -9,6 +9,10 @@ verus! {
 pub tracked struct World {
     /// CLEARED_TIMER_IDS: ids of timers cleared by the app whose futures have not been polled since
     pub ghost cleared: Set<TimerId>,
+    /// notifications the legacy Time capability has sent to the shell (Time::clear), oldest first
+    pub ghost notified: Seq<TimeRequest>,
+    /// ids handed out by get_timer_id so far
+    pub ghost issued: Set<TimerId>,
 }
 
 //@extract id=TimerId file=crux_time/src/protocol/mod.rs item="struct TimerId"
@@ -20,6 +24,12 @@ pub tracked struct World {
 #[derive(Copy, Clone)]
 //@end
 //@extract id=TimeResponse file=crux_time/src/protocol/mod.rs item="enum TimeResponse"
+//@end
+//@extract id=Duration file=crux_time/src/protocol/duration.rs item="struct Duration"
+//@contract
+#[derive(Copy, Clone)]
+//@end
+//@extract id=TimeRequest file=crux_time/src/protocol/mod.rs item="enum TimeRequest"
 //@end
 
 /// std::task::Poll
@@ -47,12 +57,17 @@ impl ClearedTimerIds {
     { unimplemented!() }
 }
 impl ClearedGuard {
+    // ASSUMED: std HashSet::insert on the protected set
+    #[verifier::external_body]
+    pub fn insert(&mut self, Tracked(w): Tracked<&mut World>, id: TimerId) -> (r: bool)
+        ensures *final(w) == (World { cleared: old(w).cleared.insert(id), ..*old(w) }),
+    { unimplemented!() }
     // ASSUMED: std HashSet::remove on the protected set
     #[verifier::external_body]
     pub fn remove(&mut self, Tracked(w): Tracked<&mut World>, id: &TimerId) -> (r: bool)
         ensures
             r == old(w).cleared.contains(*id),
-            final(w).cleared == old(w).cleared.remove(*id),
+            *final(w) == (World { cleared: old(w).cleared.remove(*id), ..*old(w) }),
     { unimplemented!() }
 }
 
@@ -87,6 +102,110 @@ impl<F: InnerFuture> TimerFuture<F> {
 //@rule X12.pin-erasure * s/self\.get_mut\(\)/self/
 //@rule X12.pin-erasure * s/Pin::new\(&mut this\.future\)\.poll\(cx\)/this.future.poll(Tracked(w), cx)/
 //@rule X6.world * s/\b(\w+)\.remove\(&/\1.remove(Tracked(w), &/
+//@end
+}
+
+// ------------------------------------------------------------------ the legacy API's constructors and clear (C18)
+/// std types as the app gave them (their conversions are unit T's subject)
+#[verifier::external_body]
+pub struct StdDuration { _p: u8 }
+#[verifier::external_body]
+pub struct SystemTime { _p: u8 }
+pub uninterp spec fn wire_duration_s(d: StdDuration) -> Duration;
+pub uninterp spec fn wire_instant_s(t: SystemTime) -> Instant;
+#[verifier::external_body]
+pub fn wire_duration(d: StdDuration) -> (r: Duration)
+    ensures r == wire_duration_s(d),
+{ unimplemented!() }
+#[verifier::external_body]
+pub fn wire_instant(t: SystemTime) -> (r: Instant)
+    ensures r == wire_instant_s(t),
+{ unimplemented!() }
+// ASSUMED (proved in unit P: get_timer_id hands out an id no timer of the process has)
+#[verifier::external_body]
+pub fn get_timer_id(Tracked(w): Tracked<&mut World>) -> (r: TimerId)
+    ensures !old(w).issued.contains(r), *final(w) == (World { issued: old(w).issued.insert(r), ..*old(w) }),
+{ unimplemented!() }
+/// the (not yet awaited) future of one shell request
+#[verifier::external_body]
+pub struct ShellFuture { _p: u8 }
+impl ShellFuture { pub uninterp spec fn op(&self) -> TimeRequest; }
+impl InnerFuture for ShellFuture {
+    uninterp spec fn next(&self) -> Poll<TimeResponse>;
+    #[verifier::external_body]
+    fn poll(&mut self, Tracked(w): Tracked<&mut World>, cx: &mut Context<'_>) -> (r: Poll<TimeResponse>) { unimplemented!() }
+}
+#[verifier::external_body]
+#[verifier::accept_recursive_types(Ev)]
+pub struct CapabilityContext<Ev> { _p: core::marker::PhantomData<Ev> }
+impl<Ev> CapabilityContext<Ev> {
+    // ASSUMED (crux_core CapabilityContext::request_from_shell): builds the future of exactly this request; nothing is sent until it is polled
+    #[verifier::external_body]
+    pub fn request_from_shell(&self, operation: TimeRequest) -> (r: ShellFuture)
+        ensures r.op() == operation,
+    { unimplemented!() }
+    // ASSUMED (X17 `context.notify_shell(op).await`; Kani unit A proves the command-API twin): one notification, exactly this operation
+    #[verifier::external_body]
+    pub fn notify_shell(&self, Tracked(w): Tracked<&mut World>, operation: TimeRequest)
+        ensures *final(w) == (World { notified: old(w).notified.push(operation), ..*old(w) }),
+    { unimplemented!() }
+    // X17: the task handed to spawn has, in the projection, already run to its end
+    pub fn spawn(&self, _task: ()) {}
+}
+impl<Ev> Clone for CapabilityContext<Ev> {
+    #[verifier::external_body]
+    fn clone(&self) -> (r: Self) { unimplemented!() }
+}
+pub struct Time<Ev> { pub context: CapabilityContext<Ev> }
+
+impl<F: InnerFuture> TimerFuture<F> {
+//@extract id=TimerFuture::new file=crux_time/src/lib.rs within="impl<F> TimerFuture<F>" item="fn new" props=C18
+//@expect fn new(timer_id: TimerId, future: F) -> Self
+//@sig fn new(timer_id: TimerId, future: F) -> (r: Self)
+//@contract
+        ensures r.timer_id == timer_id && !r.is_cleared && r.future == future, // [C18/TimerFuture::new/a-new-timer-future-carries-its-id-and-is-not-cleared]
+//@end
+}
+
+impl<Ev> Time<Ev> {
+//@extract id=Time::notify_after_async file=crux_time/src/lib.rs within="impl<Ev> Time<Ev>" item="fn notify_after_async" props=C18
+//@expect pub fn notify_after_async( &self, duration: std::time::Duration, ) -> (TimerFuture<impl Future<Output = TimeResponse>>, TimerId)
+//@sig pub fn notify_after_async(&self, Tracked(w): Tracked<&mut World>, duration: StdDuration) -> (r: (TimerFuture<ShellFuture>, TimerId))
+//@contract
+        ensures
+            !old(w).issued.contains(r.1), // [C18/legacy-notify_after/the-timer-gets-an-id-no-other-timer-in-the-process-has]
+            r.0.timer_id == r.1 && !r.0.is_cleared, // [C18/legacy-notify_after/the-future-watches-exactly-the-id-it-returns]
+            r.0.future.op() == (TimeRequest::NotifyAfter { id: r.1, duration: wire_duration_s(duration) }), // [C18/legacy-notify_after/the-request-carries-that-id-and-the-duration-given]
+            final(w).cleared == old(w).cleared && final(w).notified == old(w).notified,
+//@rule X6.world 1 s/get_timer_id\(\)/get_timer_id(Tracked(w))/
+//@rule X7.into 1 s/duration\.into\(\)/wire_duration(duration)/
+//@end
+
+//@extract id=Time::notify_at_async file=crux_time/src/lib.rs within="impl<Ev> Time<Ev>" item="fn notify_at_async" props=C18
+//@expect pub fn notify_at_async( &self, system_time: SystemTime, ) -> (TimerFuture<impl Future<Output = TimeResponse>>, TimerId)
+//@sig pub fn notify_at_async(&self, Tracked(w): Tracked<&mut World>, system_time: SystemTime) -> (r: (TimerFuture<ShellFuture>, TimerId))
+//@contract
+        ensures
+            !old(w).issued.contains(r.1), // [C18/legacy-notify_at/the-timer-gets-an-id-no-other-timer-in-the-process-has]
+            r.0.timer_id == r.1 && !r.0.is_cleared, // [C18/legacy-notify_at/the-future-watches-exactly-the-id-it-returns]
+            r.0.future.op() == (TimeRequest::NotifyAt { id: r.1, instant: wire_instant_s(system_time) }), // [C18/legacy-notify_at/the-request-carries-that-id-and-the-instant-given]
+            final(w).cleared == old(w).cleared && final(w).notified == old(w).notified,
+//@rule X6.world 1 s/get_timer_id\(\)/get_timer_id(Tracked(w))/
+//@rule X7.into 1 s/system_time\.into\(\)/wire_instant(system_time)/
+//@end
+
+//@extract id=Time::clear file=crux_time/src/lib.rs within="impl<Ev> Time<Ev>" item="fn clear" props=C13+C18
+//@expect pub fn clear(&self, id: TimerId)
+//@sig pub fn clear(&self, Tracked(w): Tracked<&mut World>, id: TimerId)
+//@contract
+        ensures
+            final(w).cleared == old(w).cleared.insert(id), // [C18/legacy-clear/exactly-this-timers-id-enters-the-cleared-set]
+            final(w).notified == old(w).notified.push(TimeRequest::Clear { id }), // [C18/legacy-clear/exactly-one-clear-notification-for-its-id]
+            final(w).issued == old(w).issued,
+//@rule X17.async-block 1 s/async move \{/{/
+//@rule X17.await * s/\s*\.await\b//
+//@rule X6.world 1 s/\b(\w+)\.insert\(id\)/\1.insert(Tracked(w), id)/
+//@rule X6.world 1 s/\.notify_shell\(/.notify_shell(Tracked(w), /
 //@end
 }
 
